@@ -106,14 +106,15 @@ def run(ctx):
     fstats, fixture_problems = fixture_selftest(tool)
     reports = run_shards(ctx, "C29", [("exec", "relay-exec", n), ("schema", "relay-schema", n)], tool)
     violations = []
+    known = {k["signature"] for k in runner.load_known() if k.get("property") == "C29"}
     seen = set()
     targets = {"relay-exec": gc.Target("C29", "exec", "relay-exec"), "relay-schema": gc.Target("C29", "schema", "relay-schema")}
     for mode, rep in sorted(reports.items()):
-        for v in gc.violations_from(targets[mode], rep):
+        for v in gc.violations_from(targets[mode], rep, known=known):
             seen.add(v["signature"])
             violations.append(v)
     for target, total in fixture_problems:
-        for v in gc.violations_from(gc.Target("C29", target.doc_kind, target.mode, dialect=gqlref.POST_2018), total):
+        for v in gc.violations_from(gc.Target("C29", target.doc_kind, target.mode, dialect=gqlref.POST_2018), total, known=known):
             if v["signature"] not in seen:
                 seen.add(v["signature"])
                 v["what"] = "[crate fixture] " + v["what"]
